@@ -699,6 +699,40 @@ def check_spawn_on_demand(ctx, fx, f, b, n, inst):
                 names = [x["callee"].split("::")[-1] for x in chain(b_, t["args"][0])]
                 if any(nm in ("get", "get_mut") for nm in names):
                     reuse_ok = True
+    if not reuse_ok:
+        # spelled as control flow in a lookup helper (`let addr = entry?.downcast_ref()?.to_owned(); if addr.running() { Some(addr)
+        # } else { None }`): with the helper inlined, every `Some(<address>)` that is built lies on a running() == true path
+        ib = inline.body(ctx, fx, f, inline.not_public)
+        gets = [x for _, x in ib.normal_calls() if is_mapop(x) and x["callee"].endswith(("::get", "::get_mut"))]
+        A2 = registry_alphabet(fx)
+
+        def some_addr(body_, bi_, si_, st_):
+            r_ = st_["r"]
+            if r_["k"] == "agg" and r_.get("def") == "core::option::Option" and r_.get("variant") == "Some" and r_.get("ops"):
+                o_ = r_["ops"][0]
+                if o_.get("k") in ("move", "copy") and body_.locals[o_["p"][0]]["ty"].startswith("addr::Addr<"):
+                    return "stmt:some-addr"
+            return None
+        A2.stmt_fn = some_addr
+        n2 = nfa.build(ib, A2)
+        n_some = len(nfa.edges_labelled(n2, "stmt:some-addr"))
+
+        class _SomeOnlyLive(nfa.Spec):
+            init = ("unknown",)
+
+            def step(self, st, label):
+                ev = label.split("@")[0]
+                if ev in ("bool:live=1", "bool:dead=0"):
+                    return ("live",)
+                if ev in ("bool:live=0", "bool:dead=1"):
+                    return ("dead",)
+                if ev == "stmt:some-addr" and st[0] != "live":
+                    return nfa.Err("an address is taken out of the registry for reuse on a path on which it was not found running (%s)" % st[0])
+                return st
+        if gets and n_some >= 1:
+            v2, p2 = nfa.check(n2, _SomeOnlyLive())
+            ctx.count_nfa(n2.stats(), p2)
+            reuse_ok = not v2
     ctx.require(reuse_ok, "R08.3", inst + ":reuse-only-if-running", "a registered instance must be reused only if it is running", fn=f["def"], site=f["loc"])
     # spawn branch
     cl = [(bi, t) for bi, t in b.normal_calls() if (t.get("callee") or "").endswith("::create_loop")]
